@@ -28,9 +28,14 @@ import (
 )
 
 type stepOp struct {
-	Op   string     `json:"op"` // "ingest" | "tick" | "rotate"
+	Op   string     `json:"op"` // "ingest" | "tick" | "rotate" | "wal"
 	Pts  []recPoint `json:"pts,omitempty"`
 	Gate string     `json:"gate,omitempty"` // tick: dps | mname | meta | tags
+	// wal: lower the limits of the datapoint WAL (0 = unchanged): ingest calls append a block
+	// themselves after Flush buffered datapoints, the log of a block continues in a new file
+	// (rotateWAL) when the encoded size of the current file exceeds Max bytes
+	Flush int `json:"flush,omitempty"`
+	Max   int `json:"max,omitempty"`
 }
 
 type crashCase struct {
@@ -84,31 +89,60 @@ func genScriptOpt(t *rapid.T, rich bool) *crashCase {
 		return out
 	}
 	tick := func(g string) { cs.Script = append(cs.Script, stepOp{Op: "tick", Gate: g}) }
-	cs.Script = append(cs.Script, stepOp{Op: "ingest", Pts: pts(rapid.IntRange(0, 4).Draw(t, "n0"), true)})
+	// the limits of the datapoint WAL: two scripts in three (and every rich one) run with lowered
+	// limits, so that ingest calls and dps ticks rotate the WAL (rotateWAL) again and again and the
+	// crash points fall on every side of a rotation; such scripts carry more datapoints per call
+	// (rapid favours small values: the draws are rotated by a per-case offset)
+	flat := func(label string, n int) int {
+		return (rapid.IntRange(0, n-1).Draw(t, label) + int(base%uint32(n))) % n
+	}
+	walRegimes := [][2]int{{2, 70}, {1, 60}, {3, 100}, {2, 1}, {2, 150}, {10000, 90}, {4, 260}, {1, 1}} // flush, max
+	walOp := stepOp{Op: "wal"}
+	lowered := rich || flat("walLowered", 3) != 0
+	extra := 0
+	if lowered {
+		nReg := len(walRegimes)
+		if rich {
+			nReg, extra = 4, 2 // the regimes with a rotation every one or two blocks
+		}
+		r := walRegimes[flat("walRegime", nReg)]
+		walOp.Flush, walOp.Max = r[0], r[1]
+		extra += 3
+	}
+	walLate := lowered && !rich && flat("walLate", 4) == 0
+	if lowered && !walLate {
+		cs.Script = append(cs.Script, walOp)
+	}
+	cs.Script = append(cs.Script, stepOp{Op: "ingest", Pts: pts(rapid.IntRange(0, 4).Draw(t, "n0")+extra, true)})
 	tick("tags")
 	tick("mname")
 	tick("dps")
 	tick("meta")
+	if walLate {
+		// the first block of the log was written under the production limits
+		cs.Script = append(cs.Script, walOp)
+	}
 	more := rapid.IntRange(0, 2).Draw(t, "more")
-	if rich && more == 0 {
+	if (rich || walLate) && more == 0 {
 		more = 1
 	}
 	for k, n := 0, more; k < n; k++ {
-		cs.Script = append(cs.Script, stepOp{Op: "ingest", Pts: pts(rapid.IntRange(1, 5).Draw(t, "n"), false)})
+		cs.Script = append(cs.Script, stepOp{Op: "ingest", Pts: pts(rapid.IntRange(1, 5).Draw(t, "n")+extra, false)})
 		tick("dps")
 		if rapid.Bool().Draw(t, "metaTick") {
 			tick("meta")
 		}
 	}
 	if rapid.IntRange(0, 2).Draw(t, "rotate") != 0 || rich {
+		// (a block rotation always follows a dps tick: every acknowledged datapoint is in the log)
 		cs.Script = append(cs.Script, stepOp{Op: "rotate"})
 		tick("meta")
-		cs.Script = append(cs.Script, stepOp{Op: "ingest", Pts: pts(rapid.IntRange(1, 4).Draw(t, "n"), false)})
+		cs.Script = append(cs.Script, stepOp{Op: "ingest", Pts: pts(rapid.IntRange(1, 4).Draw(t, "n")+extra, false)})
 		tick("dps")
 		tick("meta")
 	}
 	if rapid.IntRange(0, 3).Draw(t, "tail") != 0 || rich {
-		cs.Script = append(cs.Script, stepOp{Op: "ingest", Pts: pts(rapid.IntRange(1, 4).Draw(t, "n"), false)})
+		cs.Script = append(cs.Script, stepOp{Op: "ingest", Pts: pts(rapid.IntRange(1, 4).Draw(t, "n")+extra, false)})
 	}
 	return cs
 }
@@ -311,6 +345,15 @@ script:
 				return err
 			}
 			clearInflight()
+		case "wal":
+			if err := e.setWalLimits(op.Flush, op.Max); err != nil {
+				var inc *pt.Inconclusive
+				if errors.As(err, &inc) {
+					return err
+				}
+				crashedIn = "wallimits"
+				break script
+			}
 		case "rotate":
 			want, err := e.rotationTargets()
 			if err != nil {
